@@ -15,7 +15,9 @@ def sh(cmd, cwd=None, timeout=1800):
 
 def main():
     sd = os.path.abspath(sys.argv[1]); props = sys.argv[2:]
-    name = props[0] + "-" + os.path.basename(os.path.dirname(sd + "/")) .replace("seedout_", "") + "-" + os.path.basename(sd)
+    name = os.path.basename(os.path.dirname(sd)).replace("seedout_", "") + "-" + os.path.basename(sd)
+    if not name.startswith("R"):          # rounds 1 and 2: seedout_<prop>/<X>
+        name = props[0] + "-" + os.path.basename(sd) + "-" + os.path.basename(sd)
     patch = os.path.join(sd, "patch.diff")
     readme = open(os.path.join(sd, "README.md")).read() if os.path.exists(os.path.join(sd, "README.md")) else ""
     demos = glob.glob(os.path.join(sd, "*_test.go"))
